@@ -201,19 +201,22 @@ End D.
 
 (* ---- one DFPNSolver used for several positions in a row (gencorpus does this) ----
    The table and the killer moves persist; per call the attacker is the configured one or, when none is configured,
-   the side to move; when it differs from the attacker of the previous call the table is cleared (stored bounds award
-   draws to the opponent of the attacker they were computed for).  cfg_attacker / sv_attacker: 0 none, 1 White, 2 Black. *)
-Record dsolver := { sv_table : list dentry; sv_killers : list rmove; sv_attacker : N }.
-Definition dsolver0 (table_entries : nat) : dsolver := {| sv_table := repeat dentry0 table_entries; sv_killers := []; sv_attacker := 0 |}.
+   the side to move; when it differs from the attacker of the previous call, or the board size differs from that of the
+   previous call, the table is cleared (stored bounds award draws to the opponent of the attacker they were computed
+   for, and the hash does not cover the board size).  cfg_attacker / sv_attacker: 0 none, 1 White, 2 Black;
+   sv_size: the size of the previous call's board (0: none yet). *)
+Record dsolver := { sv_table : list dentry; sv_killers : list rmove; sv_attacker : N; sv_size : N }.
+Definition dsolver0 (table_entries : nat) : dsolver :=
+  {| sv_table := repeat dentry0 table_entries; sv_killers := []; sv_attacker := 0; sv_size := 0 |}.
 
 Definition prove_on (basis : list N) (lfuel dfuel : nat) (cfg_attacker : N) (sv : dsolver) (g : position)
   : dsolver * (dstate * dentry * N * N) :=
   let aw := match cfg_attacker with 1 => true | 2 => false | _ => to_move_white g end in
   let att := if aw then 1 else 2 in
-  let table := if sv_attacker sv =? att then sv_table sv else map (fun _ => dentry0) (sv_table sv) in
+  let table := if (sv_attacker sv =? att) && (sv_size sv =? size g) then sv_table sv else map (fun _ => dentry0) (sv_table sv) in
   let s0 := {| dtable := table; dstack := []; killers := sv_killers sv; dst := dstats0; dfuel_out := false |} in
   let '(s, e, work) := prove_from basis aw lfuel dfuel s0 g in
-  ({| sv_table := dtable s; sv_killers := killers s; sv_attacker := att |}, (s, e, work, result_of aw g e)).
+  ({| sv_table := dtable s; sv_killers := killers s; sv_attacker := att; sv_size := size g |}, (s, e, work, result_of aw g e)).
 
 Fixpoint prove_seq (basis : list N) (lfuel dfuel : nat) (cfg_attacker : N) (sv : dsolver) (gs : list position)
   : list (dstate * dentry * N * N) :=
